@@ -444,3 +444,9 @@ func ZZSymTime(prefix string) (Time, int) {
 	t, off, _ := symTime(prefix)
 	return t, off
 }
+
+// ZZRawDate builds a date value from arbitrary fields WITHOUT validation (for
+// properties of functions that only read the fields, e.g. bucket hashes).
+func ZZRawDate(y, m, d int) Date {
+	return &date{year: y, month: m, day: d, format: DefaultDateFormat()}
+}
